@@ -104,9 +104,32 @@ fn main() {
     }
     // the generator runs on a thread of its own; this one watches the progress reports of generators that make them:
     // a case that does not come back within the time allowed ends the run with `HANG <case id>` (exit code 3)
+    // (every line a generator writes counts as progress, so generators that do not report their cases are watched as
+    // well: the run ends when nothing has been written for the time allowed)
+    struct TickWriter(Box<dyn Write + Send>);
+    impl Write for TickWriter {
+        fn write(&mut self, buf: &[u8]) -> std::io::Result<usize> {
+            if buf.contains(&b'\n') {
+                rng::WATCH_TICK.fetch_add(1, std::sync::atomic::Ordering::SeqCst);
+                rng::WATCH_ARMED.store(true, std::sync::atomic::Ordering::SeqCst);
+                if let Ok(mut g) = rng::WATCH_LAST.lock() {
+                    let line = String::from_utf8_lossy(buf);
+                    let id: Vec<&str> = line.split_whitespace().take(2).collect();
+                    if id.len() == 2 {
+                        *g = id.join(" ");
+                    }
+                }
+            }
+            self.0.write(buf)
+        }
+        fn flush(&mut self) -> std::io::Result<()> {
+            self.0.flush()
+        }
+    }
+    let out: Box<dyn Write + Send> = Box::new(TickWriter(out));
     let gen_args = args.clone();
     let worker = std::thread::spawn(move || run_gen(&gen_args, seed, &tier, out));
-    let allowed = std::time::Duration::from_secs(std::env::var("VERIF_HANG_SECS").ok().and_then(|x| x.parse().ok()).unwrap_or(45));
+    let allowed = std::time::Duration::from_secs(std::env::var("VERIF_HANG_SECS").ok().and_then(|x| x.parse().ok()).unwrap_or(90));
     let mut last = (rng::WATCH_TICK.load(std::sync::atomic::Ordering::SeqCst), std::time::Instant::now());
     while !worker.is_finished() {
         std::thread::sleep(std::time::Duration::from_millis(100));
@@ -115,7 +138,8 @@ fn main() {
             last = (t, std::time::Instant::now());
         } else if rng::WATCH_ARMED.load(std::sync::atomic::Ordering::SeqCst) && last.1.elapsed() > allowed {
             let id = rng::WATCH_CASE.lock().map(|g| g.clone()).unwrap_or_default();
-            eprintln!("HANG {}", id);
+            let last = rng::WATCH_LAST.lock().map(|g| g.clone()).unwrap_or_default();
+            eprintln!("HANG {} (last completed case: {})", if id.is_empty() { "the-case-after-the-last-completed-one" } else { &id }, last.replace(' ', "_"));
             // the targets this run started would otherwise stay behind
             if let Ok(rd) = std::fs::read_dir("/proc") {
                 let me = std::process::id().to_string();
